@@ -55,6 +55,15 @@ var simBotKinds = map[byte]func(i int) simBotSpec{
 				}
 			}}
 	},
+'A': func(i int) simBotSpec { // eBGP, ADD-PATH with send-max 1 (one path over the limit is enough)
+		return simBotSpec{Name: fmt.Sprintf("A%d", i), IP: [4]byte{10, 0, 0, byte(1 + i)}, AS: uint32(65001 + i), RouterID: [4]byte{1, 1, 1, byte(1 + i)},
+			AddPath: map[bgp.Family]bgp.BGPAddPathMode{bgp.RF_IPv4_UC: bgp.BGP_ADD_PATH_RECEIVE},
+			Neighbor: func(n *oc.Neighbor) {
+				for j := range n.AfiSafis {
+					n.AfiSafis[j].AddPaths.Config.SendMax = 1
+				}
+			}}
+	},
 	'6': func(i int) simBotSpec { // eBGP with IPv4+IPv6 unicast
 		return simBotSpec{Name: fmt.Sprintf("v%d", i), IP: [4]byte{10, 0, 0, byte(1 + i)}, AS: uint32(65001 + i), RouterID: [4]byte{1, 1, 1, byte(1 + i)},
 			Families: []bgp.Family{bgp.RF_IPv4_UC, bgp.RF_IPv6_UC}}
@@ -70,6 +79,8 @@ type simRoutesScenario struct {
 	noAPI   bool
 	noPeers bool
 	noDrain bool // teardown without force-draining the peers' queues (C20 leak oracle)
+	src     string // if set: only the bots whose index digit occurs here announce / withdraw
+	flap    string // if set: only the bots whose index digit occurs here go down / up
 	// C02 model: what each bot announced on its current session
 	model map[string]simModelRoute // key bot|prefix|pathid
 	local map[string]int           // prefix -> variant of API route
@@ -106,6 +117,10 @@ func init() {
 				sc.noPeers = true
 			case "nodrain":
 				sc.noDrain = true
+			case "src":
+				sc.src = v
+			case "flap":
+				sc.flap = v
 			}
 		}
 		return sc
@@ -171,8 +186,10 @@ func (sc *simRoutesScenario) Enabled(w *simWorld) []simEvent {
 	for i, b := range w.bots {
 		p := w.peer(b)
 		est := p != nil && p.State() == bgp.BGP_FSM_ESTABLISHED && b.connected()
+		maySrc := sc.src == "" || strings.Contains(sc.src, fmt.Sprint(i))
+		mayFlap := !sc.noFlap && (sc.flap == "" || strings.Contains(sc.flap, fmt.Sprint(i)))
 		if est {
-			for pf := 0; pf < sc.npfx; pf++ {
+			for pf := 0; pf < sc.npfx && maySrc; pf++ {
 				if !sc.pfxOK(b, pf) {
 					continue
 				}
@@ -186,10 +203,10 @@ func (sc *simRoutesScenario) Enabled(w *simWorld) []simEvent {
 					ev = append(ev, simEvent{Op: "wd", Bot: i, A: pf, C: 2})
 				}
 			}
-			if !sc.noFlap {
+			if mayFlap {
 				ev = append(ev, simEvent{Op: "down", Bot: i})
 			}
-		} else if p != nil && !sc.noFlap {
+		} else if p != nil && mayFlap {
 			ev = append(ev, simEvent{Op: "up", Bot: i})
 		}
 		if !sc.noPeers {
@@ -346,8 +363,10 @@ func (sc *simRoutesScenario) expectedExport(w *simWorld, b *simBot, p *peer) (ma
 			if out == nil || out.IsWithdraw {
 				continue
 			}
-			for _, m := range table.CreateUpdateMsgFromPaths([]*table.Path{out}, opts) {
-				buf, err := m.Serialize(opts)
+			// the daemon serialises under ITS side of the negotiated options (send <-> receive)
+			srvOpts := simMirrorOpts(opts)
+			for _, m := range table.CreateUpdateMsgFromPaths([]*table.Path{out}, srvOpts) {
+				buf, err := m.Serialize(srvOpts)
 				if err != nil {
 					w.violate("C01:expected-route-unserialisable", "route %v for %s cannot be serialised: %v", out, b.spec.Name, err)
 					continue
@@ -602,4 +621,24 @@ func (sc *simRoutesScenario) compareRib(w *simWorld, name string, tm *table.Tabl
 		}
 	}
 	_ = context.Background
+}
+
+// simMirrorOpts turns the bot's marshalling options into the daemon's: ADD-PATH send and receive swap.
+func simMirrorOpts(o *bgp.MarshallingOption) *bgp.MarshallingOption {
+	if o == nil {
+		return nil
+	}
+	m := *o
+	m.AddPath = map[bgp.Family]bgp.BGPAddPathMode{}
+	for f, mode := range o.AddPath {
+		var x bgp.BGPAddPathMode
+		if mode&bgp.BGP_ADD_PATH_SEND != 0 {
+			x |= bgp.BGP_ADD_PATH_RECEIVE
+		}
+		if mode&bgp.BGP_ADD_PATH_RECEIVE != 0 {
+			x |= bgp.BGP_ADD_PATH_SEND
+		}
+		m.AddPath[f] = x
+	}
+	return &m
 }
